@@ -273,8 +273,12 @@ package dastard
 //@   loop 2
 //@     invariant -1 <= rangeindex && rangeindex <= len(ds.processors) - 1
 //@   loop 3
+//@     invariant -1 <= rangeindex && rangeindex <= len(ds.chanNumbers) - 1 && config.MapInternalOnly != nil
+//@     invariant pixels: forall k int :: {ds.chanNumbers[k]} 0 <= k && k <= rangeindex ==> 1 <= ds.chanNumbers[k] && ds.chanNumbers[k] <= len(config.MapInternalOnly.Pixels)
+//@   loop 4
 //@     invariant -1 <= rangeindex && rangeindex <= len(ds.processors) - 1 && ProcsOK(ds) && InvS(ds.writingState) && ReportUnchanged(ds) && config != nil
 //@     invariant flags: unchanged(config.WriteLJH22, config.WriteLJH3, config.WriteOFF, config.MapInternalOnly) && ChanTablesOK(ds)
+//@     invariant pixels: config.MapInternalOnly != nil ==> (forall k int :: {ds.chanNumbers[k]} 0 <= k && k < len(ds.chanNumbers) ==> 1 <= ds.chanNumbers[k] && ds.chanNumbers[k] <= len(config.MapInternalOnly.Pixels)) && unchanged(config.MapInternalOnly.Pixels)
 //@     invariant done: forall p int :: {at(ds.processors, p)} ds.processors.off <= p && p <= ds.processors.off + rangeindex ==>
 //@          ((at(ds.processors, p).LJH22 != nil) <==> config.WriteLJH22) && ((at(ds.processors, p).LJH3 != nil) <==> config.WriteLJH3) && (at(ds.processors, p).OFF != nil ==> config.WriteOFF) && ((at(ds.processors, p).LJH22 != nil || at(ds.processors, p).LJH3 != nil || at(ds.processors, p).OFF != nil) ==> !at(ds.processors, p).WritingPaused)
 //@     invariant rest: forall p int :: {at(ds.processors, p)} ds.processors.off + rangeindex < p && p < ds.processors.off + len(ds.processors) ==> at(ds.processors, p).LJH22 == nil && at(ds.processors, p).LJH3 == nil && at(ds.processors, p).OFF == nil
